@@ -247,111 +247,120 @@ theorem find?_congr' {β : Type} {p q : β → Bool} : ∀ (l : List β), (∀ x
     rw [List.find?_cons, List.find?_cons, h a (List.mem_cons_self ..),
       find?_congr' l (fun x hx => h x (List.mem_cons_of_mem _ hx))]
 
-theorem foldMin_spec : ∀ (cells : List (Nat × Nat × α)) (m : Nat),
+theorem foldMinF_spec {β : Type} (f : β → Nat) : ∀ (l : List β) (m : Nat),
+    l.foldl (fun m c => if f c < m then f c else m) m ≤ m ∧
+    (∀ c ∈ l, l.foldl (fun m c => if f c < m then f c else m) m ≤ f c) ∧
+    (l.foldl (fun m c => if f c < m then f c else m) m = m ∨
+      ∃ c ∈ l, f c = l.foldl (fun m c => if f c < m then f c else m) m)
+  | [], m => ⟨Nat.le_refl _, fun _ h => (by cases h), Or.inl rfl⟩
+  | a :: l, m => by
+    obtain ⟨h1, h2, h3⟩ := foldMinF_spec f l (if f a < m then f a else m)
+    simp only [List.foldl_cons]
+    have hle : (if f a < m then f a else m) ≤ m ∧ (if f a < m then f a else m) ≤ f a := by
+      split <;> omega
+    refine ⟨?_, ?_, ?_⟩
+    · omega
+    · intro c hc
+      rcases List.mem_cons.mp hc with rfl | hc
+      · omega
+      · exact h2 c hc
+    · rcases h3 with h3 | ⟨c, hc, h3⟩
+      · by_cases ha : f a < m
+        · rw [if_pos ha] at h3 ⊢
+          exact Or.inr ⟨a, List.mem_cons_self .., h3.symm⟩
+        · rw [if_neg ha] at h3 ⊢
+          exact Or.inl h3
+      · exact Or.inr ⟨c, List.mem_cons_of_mem _ hc, h3⟩
+
+theorem foldMaxF_spec {β : Type} (f : β → Nat) : ∀ (l : List β) (m : Nat),
+    m ≤ l.foldl (fun m c => if f c > m then f c else m) m ∧
+    (∀ c ∈ l, f c ≤ l.foldl (fun m c => if f c > m then f c else m) m) ∧
+    (l.foldl (fun m c => if f c > m then f c else m) m = m ∨
+      ∃ c ∈ l, f c = l.foldl (fun m c => if f c > m then f c else m) m)
+  | [], m => ⟨Nat.le_refl _, fun _ h => (by cases h), Or.inl rfl⟩
+  | a :: l, m => by
+    obtain ⟨h1, h2, h3⟩ := foldMaxF_spec f l (if f a > m then f a else m)
+    simp only [List.foldl_cons]
+    have hle : m ≤ (if f a > m then f a else m) ∧ f a ≤ (if f a > m then f a else m) := by
+      split <;> omega
+    refine ⟨?_, ?_, ?_⟩
+    · omega
+    · intro c hc
+      rcases List.mem_cons.mp hc with rfl | hc
+      · omega
+      · exact h2 c hc
+    · rcases h3 with h3 | ⟨c, hc, h3⟩
+      · by_cases ha : f a > m
+        · rw [if_pos ha] at h3 ⊢
+          exact Or.inr ⟨a, List.mem_cons_self .., h3.symm⟩
+        · rw [if_neg ha] at h3 ⊢
+          exact Or.inl h3
+      · exact Or.inr ⟨c, List.mem_cons_of_mem _ hc, h3⟩
+
+/-- the column-minimum loop of `from_sparse` -/
+theorem foldMin_spec (cells : List (Nat × Nat × α)) (m : Nat) :
     cells.foldl (fun m c => if c.2.1 < m then c.2.1 else m) m ≤ m ∧
     (∀ c ∈ cells, cells.foldl (fun m c => if c.2.1 < m then c.2.1 else m) m ≤ c.2.1) ∧
     (cells.foldl (fun m c => if c.2.1 < m then c.2.1 else m) m = m ∨
-      ∃ c ∈ cells, c.2.1 = cells.foldl (fun m c => if c.2.1 < m then c.2.1 else m) m)
-  | [], m => ⟨Nat.le_refl _, fun _ h => (by cases h), Or.inl rfl⟩
-  | a :: l, m => by
-    obtain ⟨h1, h2, h3⟩ := foldMin_spec l (if a.2.1 < m then a.2.1 else m)
-    simp only [List.foldl_cons]
-    have hle : (if a.2.1 < m then a.2.1 else m) ≤ m ∧ (if a.2.1 < m then a.2.1 else m) ≤ a.2.1 := by
-      split <;> omega
-    refine ⟨?_, ?_, ?_⟩
-    · omega
-    · intro c hc
-      rcases List.mem_cons.mp hc with rfl | hc
-      · omega
-      · exact h2 c hc
-    · rcases h3 with h3 | ⟨c, hc, h3⟩
-      · by_cases ha : a.2.1 < m
-        · rw [if_pos ha] at h3 ⊢
-          exact Or.inr ⟨a, List.mem_cons_self .., h3.symm⟩
-        · rw [if_neg ha] at h3 ⊢
-          exact Or.inl h3
-      · exact Or.inr ⟨c, List.mem_cons_of_mem _ hc, h3⟩
+      ∃ c ∈ cells, c.2.1 = cells.foldl (fun m c => if c.2.1 < m then c.2.1 else m) m) :=
+  foldMinF_spec (fun c => c.2.1) cells m
 
-theorem foldMax_spec : ∀ (cells : List (Nat × Nat × α)) (m : Nat),
+theorem foldMax_spec (cells : List (Nat × Nat × α)) (m : Nat) :
     m ≤ cells.foldl (fun m c => if c.2.1 > m then c.2.1 else m) m ∧
     (∀ c ∈ cells, c.2.1 ≤ cells.foldl (fun m c => if c.2.1 > m then c.2.1 else m) m) ∧
     (cells.foldl (fun m c => if c.2.1 > m then c.2.1 else m) m = m ∨
-      ∃ c ∈ cells, c.2.1 = cells.foldl (fun m c => if c.2.1 > m then c.2.1 else m) m)
-  | [], m => ⟨Nat.le_refl _, fun _ h => (by cases h), Or.inl rfl⟩
-  | a :: l, m => by
-    obtain ⟨h1, h2, h3⟩ := foldMax_spec l (if a.2.1 > m then a.2.1 else m)
-    simp only [List.foldl_cons]
-    have hle : m ≤ (if a.2.1 > m then a.2.1 else m) ∧ a.2.1 ≤ (if a.2.1 > m then a.2.1 else m) := by
-      split <;> omega
-    refine ⟨?_, ?_, ?_⟩
-    · omega
-    · intro c hc
-      rcases List.mem_cons.mp hc with rfl | hc
-      · omega
-      · exact h2 c hc
-    · rcases h3 with h3 | ⟨c, hc, h3⟩
-      · by_cases ha : a.2.1 > m
-        · rw [if_pos ha] at h3 ⊢
-          exact Or.inr ⟨a, List.mem_cons_self .., h3.symm⟩
-        · rw [if_neg ha] at h3 ⊢
-          exact Or.inl h3
-      · exact Or.inr ⟨c, List.mem_cons_of_mem _ hc, h3⟩
+      ∃ c ∈ cells, c.2.1 = cells.foldl (fun m c => if c.2.1 > m then c.2.1 else m) m) :=
+  foldMaxF_spec (fun c => c.2.1) cells m
 
-theorem sparse_fold_notok (rs cs cols len : Nat) : ∀ (cells : List (Nat × Nat × α)) (acc : Res (List α)),
-    (∀ v, acc ≠ .ok v) → cells.foldl (sparseStep rs cs cols len) acc = acc
-  | [], _, _ => rfl
-  | c :: rest, acc, h => by
-    have : sparseStep rs cs cols len acc c = acc := by
-      cases acc with
-      | ok v => exact absurd rfl (h v)
-      | _ => rfl
-    rw [List.foldl_cons, this]; exact sparse_fold_notok rs cs cols len rest acc h
+/-- the row-minimum loop of `from_sparse` -/
+theorem rowMin_spec (cells : List (Nat × Nat × α)) (m : Nat) :
+    cells.foldl (fun m c => if c.1 < m then c.1 else m) m ≤ m ∧
+    (∀ c ∈ cells, cells.foldl (fun m c => if c.1 < m then c.1 else m) m ≤ c.1) ∧
+    (cells.foldl (fun m c => if c.1 < m then c.1 else m) m = m ∨
+      ∃ c ∈ cells, c.1 = cells.foldl (fun m c => if c.1 < m then c.1 else m) m) :=
+  foldMinF_spec (fun c => c.1) cells m
+
+theorem rowMax_spec (cells : List (Nat × Nat × α)) (m : Nat) :
+    m ≤ cells.foldl (fun m c => if c.1 > m then c.1 else m) m ∧
+    (∀ c ∈ cells, c.1 ≤ cells.foldl (fun m c => if c.1 > m then c.1 else m) m) ∧
+    (cells.foldl (fun m c => if c.1 > m then c.1 else m) m = m ∨
+      ∃ c ∈ cells, c.1 = cells.foldl (fun m c => if c.1 > m then c.1 else m) m) :=
+  foldMaxF_spec (fun c => c.1) cells m
 
 /-- the placement loop of `from_sparse` on the flat vector -/
-theorem sparse_fold (rs cs cols len : Nat) : ∀ (cells : List (Nat × Nat × α)) (v v' : List α),
-    v.length = len → cells.foldl (sparseStep rs cs cols len) (.ok v) = .ok v' →
-    v'.length = len ∧ (∀ c ∈ cells, rs ≤ c.1) ∧
-    ∀ i, i < len → v'.getD i default =
+theorem sparse_fold (rs cs cols len : Nat) : ∀ (cells : List (Nat × Nat × α)) (v : List α),
+    v.length = len →
+    (cells.foldl (sparseStep rs cs cols len) v).length = len ∧
+    ∀ i, i < len → (cells.foldl (sparseStep rs cs cols len) v).getD i default =
       match cells.reverse.find? (fun c => decide ((c.1 - rs) * cols + (c.2.1 - cs) = i)) with
       | some c => c.2.2
       | none => v.getD i default
-  | [], v, v', hv, h => by
-    simp only [List.foldl_nil] at h; injection h with h; subst h
-    exact ⟨hv, fun _ hc => (by cases hc), fun i _ => rfl⟩
-  | c :: rest, v, v', hv, h => by
-    rw [List.foldl_cons] at h
-    by_cases hc : c.1 < rs
-    · have : sparseStep rs cs cols len (.ok v) c = .panic "u32 sub overflow" := by
-        simp only [sparseStep, hc, if_true]
-      rw [this, sparse_fold_notok _ _ _ _ _ _ (fun _ hh => by cases hh)] at h; cases h
-    · have hstep : sparseStep rs cs cols len (.ok v) c =
-          .ok (if (c.1 - rs) * cols + (c.2.1 - cs) < len then v.set ((c.1 - rs) * cols + (c.2.1 - cs)) c.2.2 else v) := by
-        simp only [sparseStep, hc, if_false]; split <;> rfl
-      rw [hstep] at h
-      have hv1 : (if (c.1 - rs) * cols + (c.2.1 - cs) < len then v.set ((c.1 - rs) * cols + (c.2.1 - cs)) c.2.2 else v).length = len := by
+  | [], v, hv => ⟨hv, fun i _ => rfl⟩
+  | c :: rest, v, hv => by
+    rw [List.foldl_cons]
+    have hstep : sparseStep rs cs cols len v c =
+        (if (c.1 - rs) * cols + (c.2.1 - cs) < len then v.set ((c.1 - rs) * cols + (c.2.1 - cs)) c.2.2 else v) := rfl
+    have hv1 : (sparseStep rs cs cols len v c).length = len := by
+      rw [hstep]; split
+      · rw [List.length_set]; exact hv
+      · exact hv
+    obtain ⟨a1, a3⟩ := sparse_fold rs cs cols len rest _ hv1
+    refine ⟨a1, fun i hi => ?_⟩
+    rw [a3 i hi, List.reverse_cons, List.find?_append]
+    cases hf : rest.reverse.find? (fun c => decide ((c.1 - rs) * cols + (c.2.1 - cs) = i)) with
+    | some c' => rfl
+    | none =>
+      simp only [Option.none_or, List.find?_singleton]
+      rw [hstep]
+      by_cases hidx : (c.1 - rs) * cols + (c.2.1 - cs) = i
+      · simp only [hidx, decide_true, if_true, hi]
+        rw [List.getD_eq_getElem?_getD, List.getElem?_set]
+        simp [hv, hi]
+      · have : decide ((c.1 - rs) * cols + (c.2.1 - cs) = i) = false := by simp [hidx]
+        simp only [this, Bool.false_eq_true, if_false]
         split
-        · rw [List.length_set]; exact hv
-        · exact hv
-      obtain ⟨a1, a2, a3⟩ := sparse_fold rs cs cols len rest _ v' hv1 h
-      refine ⟨a1, ?_, fun i hi => ?_⟩
-      · intro x hx
-        rcases List.mem_cons.mp hx with rfl | hx
-        · omega
-        · exact a2 x hx
-      · rw [a3 i hi, List.reverse_cons, List.find?_append]
-        cases hf : rest.reverse.find? (fun c => decide ((c.1 - rs) * cols + (c.2.1 - cs) = i)) with
-        | some c' => rfl
-        | none =>
-          simp only [Option.none_or, List.find?_singleton]
-          by_cases hidx : (c.1 - rs) * cols + (c.2.1 - cs) = i
-          · simp only [hidx, decide_true, if_true, hi]
-            rw [List.getD_eq_getElem?_getD, List.getElem?_set]
-            simp [hv, hi]
-          · have : decide ((c.1 - rs) * cols + (c.2.1 - cs) = i) = false := by simp [hidx]
-            simp only [this, Bool.false_eq_true, if_false]
-            split
-            · rw [List.getD_eq_getElem?_getD, List.getElem?_set, if_neg hidx, ← List.getD_eq_getElem?_getD]
-            · rfl
+        · rw [List.getD_eq_getElem?_getD, List.getElem?_set, if_neg hidx, ← List.getD_eq_getElem?_getD]
+        · rfl
 
 theorem rowmajor_inj {a b a' b' w : Nat} (hb : b < w) (hb' : b' < w) (h : a * w + b = a' * w + b') :
     a = a' ∧ b = b' := by
@@ -360,65 +369,93 @@ theorem rowmajor_inj {a b a' b' w : Nat} (hb : b < w) (hb' : b' < w) (h : a * w 
   · subst heq; omega
   · have := mul_add_lt_mul (w := w) hb' hgt; omega
 
+/-- everything `from_sparse` does on a non-empty list, in one statement -/
 theorem fromSparse_core (c0 : Nat × Nat × α) (rest : List (Nat × Nat × α)) (r : Rng α)
     (h : fromSparse (c0 :: rest) = .ok r) :
-    r.sr = c0.1 ∧ r.er = ((c0 :: rest).getLast?.getD c0).1 ∧
-    r.sc = (c0 :: rest).foldl (fun m c => if c.2.1 < m then c.2.1 else m) (U32 - 1) ∧
+    r.sr = (c0 :: rest).foldl (fun m c => if c.1 < m then c.1 else m) c0.1 ∧
+    r.er = (c0 :: rest).foldl (fun m c => if c.1 > m then c.1 else m) 0 ∧
+    r.sc = (c0 :: rest).foldl (fun m c => if c.2.1 < m then c.2.1 else m) c0.2.1 ∧
     r.ec = (c0 :: rest).foldl (fun m c => if c.2.1 > m then c.2.1 else m) 0 ∧
     r.sr ≤ r.er ∧ r.sc ≤ r.ec ∧ r.inner.length = (r.er - r.sr + 1) * (r.ec - r.sc + 1) ∧
-    (∀ c ∈ c0 :: rest, r.sr ≤ c.1 ∧ r.sc ≤ c.2.1 ∧ c.2.1 ≤ r.ec) ∧
+    (∀ c ∈ c0 :: rest, r.sr ≤ c.1 ∧ c.1 ≤ r.er ∧ r.sc ≤ c.2.1 ∧ c.2.1 ≤ r.ec) ∧
     ∀ p q, r.sr ≤ p → p ≤ r.er → r.sc ≤ q → q ≤ r.ec →
       r.inner.getD ((p - r.sr) * (r.ec - r.sc + 1) + (q - r.sc)) default =
         (lastAt (c0 :: rest) p q).getD default := by
   unfold fromSparse at h
   simp only at h
-  generalize hcs : (c0 :: rest).foldl (fun m c => if c.2.1 < m then c.2.1 else m) (U32 - 1) = cs at h ⊢
-  generalize hce : (c0 :: rest).foldl (fun m c => if c.2.1 > m then c.2.1 else m) 0 = ce at h ⊢
-  generalize hre : ((c0 :: rest).getLast?.getD c0).1 = re at h ⊢
-  have hmin := foldMin_spec (c0 :: rest) (U32 - 1)
+  have hrmin := rowMin_spec (c0 :: rest) c0.1
+  have hrmax := rowMax_spec (c0 :: rest) 0
+  have hmin := foldMin_spec (c0 :: rest) c0.2.1
   have hmax := foldMax_spec (c0 :: rest) 0
-  rw [hcs] at hmin; rw [hce] at hmax
+  generalize (c0 :: rest).foldl (fun m c => if c.1 < m then c.1 else m) c0.1 = rs at h hrmin ⊢
+  generalize (c0 :: rest).foldl (fun m c => if c.1 > m then c.1 else m) 0 = re at h hrmax ⊢
+  generalize (c0 :: rest).foldl (fun m c => if c.2.1 < m then c.2.1 else m) c0.2.1 = cs at h hmin ⊢
+  generalize (c0 :: rest).foldl (fun m c => if c.2.1 > m then c.2.1 else m) 0 = ce at h hmax ⊢
   have hcc : cs ≤ ce := by
     have a := hmin.2.1 c0 (List.mem_cons_self ..)
     have b := hmax.2.1 c0 (List.mem_cons_self ..)
     omega
+  have hrr : rs ≤ re := by
+    have a := hrmin.2.1 c0 (List.mem_cons_self ..)
+    have b := hrmax.2.1 c0 (List.mem_cons_self ..)
+    omega
   split at h; · cases h
   split at h; · cases h
-  split at h; · cases h
-  rename_i _ hrr _
-  split at h
-  · rename_i v hfold
-    injection h with h; subst h
-    obtain ⟨a1, a2, a3⟩ := sparse_fold c0.1 cs (ce - cs + 1) ((ce - cs + 1) * (re - c0.1 + 1)) (c0 :: rest)
-      _ v (List.length_replicate ..) hfold
-    have hmem : ∀ c ∈ c0 :: rest, c0.1 ≤ c.1 ∧ cs ≤ c.2.1 ∧ c.2.1 ≤ ce :=
-      fun c hc => ⟨a2 c hc, hmin.2.1 c hc, hmax.2.1 c hc⟩
-    refine ⟨rfl, rfl, rfl, rfl, by simp only; omega, hcc, by simp only [a1, Nat.mul_comm], hmem, ?_⟩
-    intro p q hp1 hp2 hq1 hq2
-    simp only at hp1 hp2 hq1 hq2 ⊢
-    have hlt : (p - c0.1) * (ce - cs + 1) + (q - cs) < (ce - cs + 1) * (re - c0.1 + 1) := by
-      have := mul_add_lt_mul (w := ce - cs + 1) (q := q - cs) (p := p - c0.1) (p' := re - c0.1 + 1) (by omega) (by omega)
-      rw [Nat.mul_comm (ce - cs + 1)]; exact this
-    rw [a3 _ hlt, getD_replicate_default]
-    unfold lastAt
-    have hcongr : (c0 :: rest).reverse.find? (fun c => decide ((c.1 - c0.1) * (ce - cs + 1) + (c.2.1 - cs) =
-        (p - c0.1) * (ce - cs + 1) + (q - cs))) =
-        (c0 :: rest).reverse.find? (fun c => decide (c.1 = p ∧ c.2.1 = q)) := by
-      apply find?_congr'
-      intro c hc
-      have hc' := hmem c (List.mem_reverse.mp hc)
-      by_cases hpq : c.1 = p ∧ c.2.1 = q
-      · simp [hpq]
-      · have : ¬ ((c.1 - c0.1) * (ce - cs + 1) + (c.2.1 - cs) = (p - c0.1) * (ce - cs + 1) + (q - cs)) := by
-          intro heq
-          have := rowmajor_inj (by omega) (by omega) heq
-          omega
-        simp [hpq, this]
-    rw [hcongr]
-    cases (c0 :: rest).reverse.find? (fun c => decide (c.1 = p ∧ c.2.1 = q)) <;> rfl
-  · cases h
-  · cases h
-  · cases h
+  injection h with h; subst h
+  obtain ⟨a1, a3⟩ := sparse_fold rs cs (ce - cs + 1) ((ce - cs + 1) * (re - rs + 1)) (c0 :: rest)
+    (List.replicate ((ce - cs + 1) * (re - rs + 1)) default) (List.length_replicate ..)
+  have hmem : ∀ c ∈ c0 :: rest, rs ≤ c.1 ∧ c.1 ≤ re ∧ cs ≤ c.2.1 ∧ c.2.1 ≤ ce :=
+    fun c hc => ⟨hrmin.2.1 c hc, hrmax.2.1 c hc, hmin.2.1 c hc, hmax.2.1 c hc⟩
+  refine ⟨rfl, rfl, rfl, rfl, hrr, hcc, by simp only; rw [a1, Nat.mul_comm], hmem, ?_⟩
+  intro p q hp1 hp2 hq1 hq2
+  simp only at hp1 hp2 hq1 hq2 ⊢
+  have hlt : (p - rs) * (ce - cs + 1) + (q - cs) < (ce - cs + 1) * (re - rs + 1) := by
+    have := mul_add_lt_mul (w := ce - cs + 1) (q := q - cs) (p := p - rs) (p' := re - rs + 1) (by omega) (by omega)
+    rw [Nat.mul_comm (ce - cs + 1)]; exact this
+  rw [a3 _ hlt, getD_replicate_default]
+  unfold lastAt
+  have hcongr : (c0 :: rest).reverse.find? (fun c => decide ((c.1 - rs) * (ce - cs + 1) + (c.2.1 - cs) =
+      (p - rs) * (ce - cs + 1) + (q - cs))) =
+      (c0 :: rest).reverse.find? (fun c => decide (c.1 = p ∧ c.2.1 = q)) := by
+    apply find?_congr'
+    intro c hc
+    have hc' := hmem c (List.mem_reverse.mp hc)
+    by_cases hpq : c.1 = p ∧ c.2.1 = q
+    · simp [hpq]
+    · have : ¬ ((c.1 - rs) * (ce - cs + 1) + (c.2.1 - cs) = (p - rs) * (ce - cs + 1) + (q - cs)) := by
+        intro heq
+        have := rowmajor_inj (by omega) (by omega) heq
+        omega
+      simp [hpq, this]
+  rw [hcongr]
+  cases (c0 :: rest).reverse.find? (fun c => decide (c.1 = p ∧ c.2.1 = q)) <;> rfl
+
+/-- the four bounds `from_sparse` computes are attained by input cells (tight bounding box) -/
+theorem fromSparse_attained (c0 : Nat × Nat × α) (rest : List (Nat × Nat × α)) (r : Rng α)
+    (h : fromSparse (c0 :: rest) = .ok r) :
+    (∃ c ∈ c0 :: rest, c.1 = r.sr) ∧ (∃ c ∈ c0 :: rest, c.1 = r.er) ∧
+    (∃ c ∈ c0 :: rest, c.2.1 = r.sc) ∧ (∃ c ∈ c0 :: rest, c.2.1 = r.ec) := by
+  obtain ⟨e1, e2, e3, e4, _, _, _, hmem, _⟩ := fromSparse_core c0 rest r h
+  have hrmin := (rowMin_spec (c0 :: rest) c0.1).2.2
+  have hrmax := (rowMax_spec (c0 :: rest) 0).2.2
+  have hmin := (foldMin_spec (c0 :: rest) c0.2.1).2.2
+  have hmax := (foldMax_spec (c0 :: rest) 0).2.2
+  rw [← e1] at hrmin; rw [← e2] at hrmax; rw [← e3] at hmin; rw [← e4] at hmax
+  clear e1 e2 e3 e4
+  have hc0 := hmem c0 (List.mem_cons_self ..)
+  refine ⟨?_, ?_, ?_, ?_⟩
+  · rcases hrmin with h0 | hex
+    · exact ⟨c0, List.mem_cons_self .., h0.symm⟩
+    · exact hex
+  · rcases hrmax with h0 | hex
+    · exact ⟨c0, List.mem_cons_self .., by omega⟩
+    · exact hex
+  · rcases hmin with h0 | hex
+    · exact ⟨c0, List.mem_cons_self .., h0.symm⟩
+    · exact hex
+  · rcases hmax with h0 | hex
+    · exact ⟨c0, List.mem_cons_self .., by omega⟩
+    · exact hex
 
 /-! ### `set_value`: growth only pads with defaults -/
 
@@ -449,44 +486,82 @@ theorem new_of_pre (sr sc er ec : Nat) (h : rectPre sr sc er ec) :
   unfold new
   rw [if_neg (by omega), if_neg (by omega), if_neg (by omega), if_neg (by omega)]
 
-theorem sparse_fold_ok (rs cs cols len : Nat) : ∀ (cells : List (Nat × Nat × α)) (v : List α),
-    (∀ c ∈ cells, rs ≤ c.1) → ∃ v', cells.foldl (sparseStep rs cs cols len) (.ok v) = .ok v'
-  | [], v, _ => ⟨v, rfl⟩
-  | c :: rest, v, h => by
-    have hc := h c (List.mem_cons_self ..)
-    have hstep : sparseStep rs cs cols len (.ok v) c =
-        .ok (if (c.1 - rs) * cols + (c.2.1 - cs) < len then v.set ((c.1 - rs) * cols + (c.2.1 - cs)) c.2.2 else v) := by
-      simp only [sparseStep, show ¬ c.1 < rs by omega, if_false]; split <;> rfl
-    rw [List.foldl_cons, hstep]
-    exact sparse_fold_ok rs cs cols len rest _ (fun x hx => h x (List.mem_cons_of_mem _ hx))
-
+/-- `from_sparse` returns for cells in ANY order, provided the coordinates are `u32` and the spans `+ 1`
+    fit `u32` -/
 theorem fromSparse_of_pre (cells : List (Nat × Nat × α)) (h : sparsePre cells) :
     ∃ r, fromSparse cells = .ok r := by
   cases cells with
   | nil => exact ⟨empty, rfl⟩
   | cons c0 rest =>
-    obtain ⟨h1, h2, h3⟩ := h
-    have hmin := foldMin_spec (c0 :: rest) (U32 - 1)
+    obtain ⟨h1, h3⟩ := h
+    have hrmin := rowMin_spec (c0 :: rest) c0.1
+    have hrmax := rowMax_spec (c0 :: rest) 0
+    have hmin := foldMin_spec (c0 :: rest) c0.2.1
     have hmax := foldMax_spec (c0 :: rest) 0
     unfold fromSparse
     simp only
-    generalize (c0 :: rest).foldl (fun m c => if c.2.1 < m then c.2.1 else m) (U32 - 1) = cs at *
+    generalize (c0 :: rest).foldl (fun m c => if c.1 < m then c.1 else m) c0.1 = rs at *
+    generalize (c0 :: rest).foldl (fun m c => if c.1 > m then c.1 else m) 0 = re at *
+    generalize (c0 :: rest).foldl (fun m c => if c.2.1 < m then c.2.1 else m) c0.2.1 = cs at *
     generalize (c0 :: rest).foldl (fun m c => if c.2.1 > m then c.2.1 else m) 0 = ce at *
     have hc0 := h1 c0 (List.mem_cons_self ..)
-    have hspan : ce - cs + 1 < U32 := by
+    have hcspan : ce - cs + 1 < U32 := by
       rcases hmax.2.2 with h0 | ⟨c', hc', he⟩
       · simp only [U32] at *; omega
       · rcases hmin.2.2 with h0 | ⟨c, hc, hs⟩
         · have a := hmin.2.1 c0 (List.mem_cons_self ..)
-          have b := h3 c0 (List.mem_cons_self ..) c' hc'
+          have b := (h3 c0 (List.mem_cons_self ..) c' hc').2
           simp only [U32] at *; omega
-        · have := h3 c hc c' hc'
+        · have := (h3 c hc c' hc').2
           omega
-    rw [if_neg (by omega), if_neg (by omega), if_neg (by omega)]
-    obtain ⟨v', hv'⟩ := sparse_fold_ok c0.1 cs (ce - cs + 1) ((ce - cs + 1) * (((c0 :: rest).getLast?.getD c0).1 - c0.1 + 1))
-      (c0 :: rest) (List.replicate ((ce - cs + 1) * (((c0 :: rest).getLast?.getD c0).1 - c0.1 + 1)) default)
-      (fun c hc => (h1 c hc).1)
-    rw [hv']; exact ⟨_, rfl⟩
+    have hrspan : re - rs + 1 < U32 := by
+      rcases hrmax.2.2 with h0 | ⟨c', hc', he⟩
+      · simp only [U32] at *; omega
+      · rcases hrmin.2.2 with h0 | ⟨c, hc, hs⟩
+        · have a := hrmin.2.1 c0 (List.mem_cons_self ..)
+          have b := (h3 c0 (List.mem_cons_self ..) c' hc').1
+          simp only [U32] at *; omega
+        · have := (h3 c hc c' hc').1
+          omega
+    rw [if_neg (by omega), if_neg (by omega)]
+    exact ⟨_, rfl⟩
+
+theorem sparsePre_of_old (cells : List (Nat × Nat × α)) (h : sparsePreSorted cells) : sparsePre cells := by
+  cases cells with
+  | nil => exact ⟨fun _ hc => (by cases hc), fun _ hc => (by cases hc)⟩
+  | cons c0 rest =>
+    obtain ⟨h1, h2, h3⟩ := h
+    refine ⟨fun c hc => ⟨(h1 c hc).2.2.1, (h1 c hc).2.2.2⟩, fun c hc c' hc' => ⟨?_, h3 c hc c' hc'⟩⟩
+    have a := h1 c hc; have b := h1 c' hc'
+    omega
+
+/-- under the old (row-sorted) precondition every row lies between the first's and the last's -/
+theorem rowsBetween_of_old (cells : List (Nat × Nat × α)) (hne : cells ≠ []) (h : sparsePreSorted cells) :
+    ∀ c ∈ cells, (cells.head hne).1 ≤ c.1 ∧ c.1 ≤ (cells.getLast hne).1 := by
+  cases cells with
+  | nil => exact absurd rfl hne
+  | cons c0 rest =>
+    intro c hc
+    have := h.1 c hc
+    rw [List.getLast?_eq_some_getLast hne] at this
+    exact ⟨this.1, this.2.1⟩
+
+/-- `from_sparse` has no error or fuel outcome -/
+theorem fromSparse_ne_fuel (cells : List (Nat × Nat × α)) : fromSparse cells ≠ .outOfFuel := by
+  unfold fromSparse
+  split
+  · intro h; cases h
+  · simp only; split
+    · intro h; cases h
+    · split <;> (intro h; cases h)
+
+theorem fromSparse_ne_err (cells : List (Nat × Nat × α)) (e : String) : fromSparse cells ≠ .err e := by
+  unfold fromSparse
+  split
+  · intro h; cases h
+  · simp only; split
+    · intro h; cases h
+    · split <;> (intro h; cases h)
 
 theorem range_of_pre (r : Rng α) (sr sc er ec : Nat) (h : rectPre sr sc er ec) :
     ∃ r', range r sr sc er ec = .ok r' := by
